@@ -117,8 +117,96 @@ def history(c):
     return ["ok", res]
 
 
+def threads(c):
+    """Several threads call the lookup functions in tight loops, each on its own list of calls; every
+    result is compared with the value given for that call (computed beforehand by the harness from the
+    board description) and with the value the same call returned single-threaded at the start."""
+    import sys
+    import threading
+    import time
+    fns = dict(chip=geometry.spinn5_chip_coord, local=geometry.spinn5_local_eth_coord,
+               fpga=lambda x, y, l, rx, ry: geometry.spinn5_fpga_link(x, y, Links(l), rx, ry))
+
+    def shape(f, r):                          # what the given expectation speaks about
+        return (r is not None) if f == "fpga" else tuple(int(v) for v in r)
+    lists = [[(f, tuple(a), tuple(e) if isinstance(e, list) else e, fns[f](*a)) for f, a, e in calls]
+             for calls in c["calls"]]
+    first = [[f, list(a), plain(ref) if ref is not None else None]
+             for calls in lists for f, a, e, ref in calls]
+    bad, counts = [], [0] * len(lists)
+    stop = time.time() + c["seconds"]
+    old = sys.getswitchinterval()
+
+    def work(k):
+        mine, n = lists[k], 0
+        while time.time() < stop and len(bad) < 8:
+            for f, a, e, ref in mine:
+                r = fns[f](*a)
+                n += 1
+                if r != ref or shape(f, r) != e:
+                    bad.append([f, list(a), plain(r) if r is not None else None,
+                                plain(ref) if ref is not None else None, "free-running threads"])
+        counts[k] = n
+    sys.setswitchinterval(1e-6)
+    try:
+        ts = [threading.Thread(target=work, args=(k,)) for k in range(len(lists))]
+        for t in ts:
+            t.start()
+        for t in ts:
+            t.join()
+    finally:
+        sys.setswitchinterval(old)
+    # systematic part: one preemption at every line.  Thread A (this thread, traced from outside with
+    # sys.settrace; no source hook) stops at the k-th line event inside rig/geometry.py while thread B makes
+    # one complete call; afterwards both calls are repeated.  Every result is compared as above.
+    geo = geometry.__file__.replace(".pyc", ".py")
+    pick = [calls[0] for calls in lists] + [calls[1] for calls in lists]
+    n_sched = 0
+    for fa, aa, ea, refa in pick:
+        for fb, ab, eb, refb in pick:
+            if (fa, aa) == (fb, ab) or "local" in (fa, fb):
+                continue
+            k = 0
+            while k < 40 and len(bad) < 8:
+                k += 1
+                seen = [0]
+                got_b = []
+
+                def local_trace(frame, event, arg):
+                    if event == "line":
+                        seen[0] += 1
+                        if seen[0] == k:
+                            t = threading.Thread(target=lambda: got_b.append(fns[fb](*ab)))
+                            t.start()
+                            t.join()
+                    return local_trace
+
+                def global_trace(frame, event, arg):
+                    return local_trace if frame.f_code.co_filename == geo else None
+                fns[fa](*aa)                                   # warm: the call under test repeats a call
+                sys.settrace(global_trace)
+                try:
+                    ra = fns[fa](*aa)
+                finally:
+                    sys.settrace(None)
+                n_sched += 1
+                after = [(fb, ab, eb, refb, fns[fb](*ab)), (fa, aa, ea, refa, fns[fa](*aa))]
+                for f, a, e, ref, r in [(fa, aa, ea, refa, ra)] + [(fb, ab, eb, refb, g) for g in got_b] + after:
+                    if r != ref or shape(f, r) != e:
+                        bad.append([f, list(a), plain(r) if r is not None else None,
+                                    plain(ref) if ref is not None else None,
+                                    "%s%r stopped at its line event %d while another thread called %s%r; then both repeated"
+                                    % (fa, tuple(aa), k, fb, tuple(ab))])
+                if seen[0] < k:
+                    break                                      # the call has fewer line events than k
+    counts.append(n_sched)
+    return ["ok", first, bad[:8], sum(counts)]
+
+
 def run_case(c):
     try:
+        if c["k"] == "threads":
+            return threads(c)
         if c["k"] == "history":
             return history(c)
         if c["k"] == "dimsrange":
